@@ -150,10 +150,10 @@ pub fn quick_scale(property: &str) -> u32 {
     match property {
         "C01" => 8,
         "C02" => 6,
-        "C03" => 10,
+        "C03" => 6,
         "C04" => 3,
-        "C05" => 10,
-        "C06" => 6,
+        "C05" => 6,
+        "C06" => 3,
         "C07" => 5,
         "C08" => 100,
         "C09" => 2,
